@@ -10,6 +10,9 @@ import time
 import zlib
 from fractions import Fraction as Fr
 
+if hasattr(sys, "set_int_max_str_digits"):
+    sys.set_int_max_str_digits(0)   # exact rationals of large samples have thousands of digits
+
 VERIF = os.path.dirname(os.path.dirname(os.path.abspath(__file__)))
 REPO = os.environ.get("OPDA_REPO", "/repo")
 DRIVER = os.path.join(VERIF, "lean", ".lake", "build", "bin", "opda_driver")
